@@ -109,7 +109,7 @@ PROPS = {
                       r'^(date|time|timestamp|interval|oracle) :: impl (Date|Time|Timestamp|IntervalYM|IntervalDT) / fn (try_from_days|try_from_usecs|try_from_months)$'],
             'kinds': FUNCTIONAL},
     'C16': {
-        'verus': [r'^oracle :: ', r'^laws :: fn law_c16_'],
+        'verus': [r'^oracle :: ', r'^laws :: fn law_c16_', r'^spec :: proof fn lemma_(round_sec|floor_units|day_shift)$'],
         'kinds': FUNCTIONAL + RANGE,
     },
     'C17': {
